@@ -1,4 +1,5 @@
-"""Bounded stand-in (NOT a proof) for the descending-range / modulo arm of sql.Engine.convert_predicate (C12):
+"""Stage-2 native search (NOT a proof; since the Lean lemma desc-range every range cell of sql.Engine.convert_predicate is discharged
+deductively) for a failing range literal: used to turn an undischarged range obligation into a replayed input (C12).
 the generated SQL is run on a real SQLite database and compared with Python's ``x in range(...)``.
 
 All ranges with start, stop in [-B, B], step in +-1..4 and all integer column values in [-B-3, B+3].
